@@ -350,23 +350,67 @@ func (c *OpCase) RunLine(mode Mode, d Decisions) (line string, an *Analysis) {
 	for _, f := range c.Plan.Fetches {
 		sentByID[f.ID] = sentKeys[f.DSName+"|"+stripWS(f.Query)] > 0
 	}
+	// a fetch is tainted when something it (transitively) depends on was not sent in this run: its
+	// input may be missing for reasons other than its own gate
+	byID := map[int]*FetchDump{}
+	for i := range c.Plan.Fetches {
+		byID[c.Plan.Fetches[i].ID] = &c.Plan.Fetches[i]
+	}
+	taintMemo := map[int]int{}
+	var tainted func(id, depth int) bool
+	tainted = func(id, depth int) bool {
+		if v, ok := taintMemo[id]; ok {
+			return v == 1
+		}
+		taintMemo[id] = 0
+		f := byID[id]
+		res := false
+		if f != nil && depth < 64 {
+			for _, dep := range f.DependsOn {
+				if !sentByID[dep] || tainted(dep, depth+1) {
+					res = true
+				}
+			}
+		}
+		if res {
+			taintMemo[id] = 1
+		}
+		return res
+	}
 	gs := []string{"gates"}
+	starving := []string{"starving"}
 	for _, f := range c.Plan.Fetches {
 		k := f.DSName + "|" + stripWS(f.Query)
 		// eligible: the fetch is identifiable (unique text), it was sent without an authorizer and
-		// everything it depends on was sent in this run -- so only the gate can have held it back
-		elig := planKeys[k] == 1 && baseSent[k] > 0 && f.Query != ""
-		for _, dep := range f.DependsOn {
-			if !sentByID[dep] {
-				elig = false
-			}
-		}
+		// everything it transitively depends on was sent in this run -- so only the gate can have
+		// held it back
+		elig := planKeys[k] == 1 && baseSent[k] > 0 && f.Query != "" && !tainted(f.ID, 0)
 		rs := []string{"roots"}
+		nDen := 0
 		for _, r := range f.Roots {
 			rs = append(rs, common.L("r", common.QS(r.Type), common.QS(r.Field), common.B(r.Rule)))
+			if r.Rule && d[r.Type+"."+r.Field] {
+				nDen++
+			}
 		}
 		gs = append(gs, common.L("g", common.I(f.ID), common.QS(f.DS), opTypeAtom(f.OpType), common.L(rs...), common.B(sentByID[f.ID]), common.B(elig), common.B(planKeys[k] == 1)))
+		// held back by the rule of the property although another planned fetch depends on it
+		held := mode == Pre && len(f.Roots) > 0 && ((f.OpType == ast.OperationTypeQuery && nDen == len(f.Roots)) || (f.OpType != ast.OperationTypeQuery && nDen > 0))
+		if held {
+			for _, g := range c.Plan.Fetches {
+				for _, dep := range g.DependsOn {
+					if dep == f.ID {
+						starving = append(starving, common.I(f.ID))
+						held = false
+					}
+				}
+				if !held {
+					break
+				}
+			}
+		}
 	}
+	items = append(items, common.L(starving...))
 	items = append(items, common.L(gs...))
 	// sentinel scan over the whole response text
 	leaked := []string{}
@@ -384,15 +428,6 @@ func (c *OpCase) RunLine(mode Mode, d Decisions) (line string, an *Analysis) {
 		items = append(items, common.L("resp", common.Q(res.Response)))
 	}
 	items = append(items, common.L("flags", common.L("sentinel", common.B(len(leaked) == 0)), common.L("goequal", common.B(goEqual)), common.L("mixed", common.B(an.Mixed)), common.L("merged", common.B(an.Mixed || an.MultiCoord))))
-	hid := []string{"hidden"}
-	if mode == Pre {
-		for _, tf := range c.Plan.SortedTF() {
-			if d[tf] && !an.Seen[tf] {
-				hid = append(hid, common.QS(tf))
-			}
-		}
-	}
-	items = append(items, common.L(hid...))
 	dcs := append([]string(nil), an.DeniedCoords...)
 	sort.Strings(dcs)
 	items = append(items, common.L("sum", common.L("positions", common.I(an.Positions)), common.L("protected", common.I(an.Protected)),
